@@ -273,6 +273,18 @@ class Model:
                     self.cleanup_on_abnormal += 1
                     raise
                 self.L(Kw("cleanup"), f.fid, a[1])
+            elif kind == "edefer":
+                # like defer, but the cleanup form runs only when the body ends abnormally (error or user signal 0-4)
+                try:
+                    yield from self.block(f, a[2])
+                except MError:
+                    self.L(Kw("cleanup"), f.fid, a[1])
+                    self.cleanup_on_abnormal += 1
+                    raise
+                except MTerm:
+                    self.L(Kw("cleanup"), f.fid, a[1])
+                    self.cleanup_on_abnormal += 1
+                    raise
             elif kind == "try":
                 try:
                     yield from self.block(f, a[2])
@@ -363,7 +375,7 @@ class Gen:
                 inner = self.body(depth, 1, in_scope + 1)
                 # scopes must not end their block with an explicit return (it would only end the scope's own block)
                 inner = [a for a in inner if a[0] != "return"]
-                acts.append((r.choice(["defer", "try", "defer"]), tag, inner))
+                acts.append((r.choice(["defer", "try", "defer", "edefer"]), tag, inner))
                 kids.extend(self.spawned(inner))
             elif c < 0.93:
                 acts.append(("setdyn", r.choice(["k1", "k2"]), self.val()))
@@ -423,6 +435,8 @@ def emit_block(acts, fid, indent=1, fiber_body=False):
             out.append("(each x F%d (log :item %d %d x)%s) (log :each-done %d %d (fiber/status F%d))" % (a[1], fid, a[1], inner, fid, a[1], a[1]))
         elif k == "defer":
             out.append("(defer (log :cleanup %d %d)\n%s)" % (fid, a[1], emit_block(a[2], fid, indent + 1) or "nil"))
+        elif k == "edefer":
+            out.append("(edefer (log :cleanup %d %d)\n%s)" % (fid, a[1], emit_block(a[2], fid, indent + 1) or "nil"))
         elif k == "try":
             out.append("(try (do\n%s)\n ([e] (log :caught %d %d e)))" % (emit_block(a[2], fid, indent + 1) or "nil", fid, a[1]))
         elif k == "setdyn":
